@@ -123,8 +123,8 @@ func genExhaustive(tier string, emit func(string)) {
 				}
 				for n := 2; n <= maxN; n++ {
 					steps := admitSteps(proto, pre+n)
-					if proto == "code" && n == 3 && pre > 1 {
-						continue
+					if proto == "code" && n == 3 {
+						continue // 3 x (7+occ) steps: too many interleavings to enumerate; covered by genRandomInterleavings
 					}
 					thr := make([]thrSpec, n)
 					for i := range thr {
@@ -140,8 +140,6 @@ func genExhaustive(tier string, emit func(string)) {
 							switch {
 							case proto == "code" && tier == "quick":
 								stride = 61
-							case proto == "code" && n == 3:
-								stride = 211
 							case proto == "code":
 								stride = 3
 							case tier == "quick" && n == 3:
@@ -176,6 +174,46 @@ func genExhaustive(tier string, emit func(string)) {
 				}
 			}
 		}
+	}
+}
+
+// A': random interleavings of N racing admissions at the boundary (scopes too large to enumerate).
+func genRandomInterleavings(r *common.Rand, count int, emit func(string)) {
+	for i := 0; i < count; i++ {
+		proto := common.Pick(r, []string{"code", "code", "mapq", "conn"})
+		limit := 1 + r.Intn(4)
+		pre := limit - 1
+		if r.Intn(5) == 0 {
+			pre = limit
+		}
+		n := 3 + r.Intn(3)
+		steps := admitSteps(proto, pre+n)
+		thr := make([]thrSpec, n)
+		left := make([]int, n)
+		for t := range thr {
+			thr[t] = thrSpec{0, "a"}
+			left[t] = steps
+		}
+		var sched []int
+		for rem := n * steps; rem > 0; {
+			t := r.Intn(n)
+			if left[t] == 0 {
+				continue
+			}
+			// short bursts so that several requests sit between their check and their insert
+			b := 1 + r.Intn(2)
+			for ; b > 0 && left[t] > 0; b-- {
+				sched = append(sched, t)
+				left[t]--
+				rem--
+			}
+		}
+		for rr := 0; rr < steps; rr++ {
+			for t := 0; t < n; t++ {
+				sched = append(sched, t)
+			}
+		}
+		emit(mkCase(proto, limit, pre, thr, sched))
 	}
 }
 
@@ -271,9 +309,11 @@ func generate(r *common.Rand, tier string, emit func(string)) {
 	genExhaustive(tier, emit)
 	genMultiNode(emit)
 	if tier == "thorough" {
-		genRandom(r, 6000, emit)
-		genFree(r, 120, emit)
+		genRandomInterleavings(r, 3000, emit)
+		genRandom(r, 20000, emit)
+		genFree(r, 150, emit)
 	} else {
+		genRandomInterleavings(r, 300, emit)
 		genRandom(r, 2500, emit)
 		genFree(r, 25, emit)
 	}
